@@ -529,6 +529,13 @@ func genCalls(x g, cfg Cfg, n, level int, leadingOr bool) []Call {
 			verb = VOr
 		}
 		u := genUnit(x, cfg, level)
+		if len(calls) > 0 && x.pct(12) {
+			// the same unit (same rendering) once more in the chain
+			u = calls[x.n(len(calls))].U
+			if u.Feats != nil {
+				u.Feats["chain:unit-repeated"] = true
+			}
+		}
 		if verb == VNot && !u.NotOK() {
 			if cfg.OnExcluded != nil {
 				cfg.OnExcluded("domain:not-of-and-without-comparison")
